@@ -281,6 +281,8 @@ def strat_post(tier):
         'prior': st.sampled_from(['uniform', 'normal', 'mixed']), 'surrogate_used': st.booleans(),
         'cutoffs': st.lists(st.sampled_from([0.3, 0.7, 1.3, 2.9, 6.1]), min_size=1, max_size=3),
         'n2': st.integers(1, 6), 'npts': st.integers(1, 8), 'sample_seed': st.integers(0, 10 ** 5),
+        # the bounds handed to the posterior (only the normalisation grid uses them): wide, or tighter than the regions
+        'lims': st.sampled_from([4.0, 4.0, 1.5, 0.8]),
     }))
 
 
@@ -322,7 +324,8 @@ def run_post(case):
     ctx = 'case=%r' % (case,)
     with must_not_raise(P, 'RomcPosterior; ' + ctx):
         post = RomcPosterior(regions, funcs, funcs, funcs, funcs, list(range(case['nreg'])), case['surrogate_used'], prior,
-                             np.full(d, -4.0), np.full(d, 4.0), eps_filter=10.0, eps_region=5.0, eps_cutoff=case['cutoffs'][0])
+                             np.full(d, -case.get('lims', 4.0)), np.full(d, case.get('lims', 4.0)), eps_filter=10.0, eps_region=5.0,
+                             eps_cutoff=case['cutoffs'][0])
     pts = np.vstack([rs.uniform(-4.5, 4.5, size=(case['npts'], d))] + [params[r][4][None, :] + rs.randn(2, d) * 0.5 for r in range(case['nreg'])])
 
     def inside(r, x):
@@ -333,6 +336,8 @@ def run_post(case):
             return None
         return bool(np.all(u >= lim[:, 0]) and np.all(u <= lim[:, 1]))
     labels = ['surrogate_used' if case['surrogate_used'] else 'actual-objectives', 'prior=' + case['prior']]
+    if case.get('lims', 4.0) < 4.0:
+        labels.append('bounds-tighter-than-regions')
     nz = 0
     for ci, eps in enumerate(case['cutoffs']):
         if ci > 0:
